@@ -40,6 +40,12 @@ TEXT = {
  "C11": ("All code trees up to S points over the printable atom kinds, printed by the three printing routes and parsed back by the real parser.",
          "Trusted: structural comparison by the harness's own tree type.",
          "exhaustive small-scope enumeration of programs, round-trip oracle"),
+ "C12": ("All RNG scripts with a bounded number of deviations (grid covering every outcome of every small gen_range) for every size / bound / instruction list / binding table / name probability; each generated item checked for size, leaf kinds, executability and print stability; reachability of all kinds.",
+         "Trusted: the scripted-RNG hook (harness answers replace thread_rng draws; rand's own sampling code stays in the loop); the grid self-check.",
+         "deviation-bounded exhaustive enumeration of scripted RNG answers (CHESS-style iterative bounding over environment answers)"),
+ "C13": ("All RNG scripts with a bounded number of deviations for every parameter tuple of the value generators and the *.RAND instructions; bounds, lengths, reachability of every position/value, invalid parameters, no hang (draw horizon).",
+         "Trusted: the scripted-RNG hook; the draw horizon as hang detector.",
+         "deviation-bounded exhaustive enumeration of scripted RNG answers"),
  "C16": ("Every reachable PushStack content up to the size bound (BFS to fixpoint) x every public operation x every position in [0,len+2] executed on the real container and compared with a plain Vec; complete for the bound.",
          "Trusted: the Vec reference (harness/src/c16.rs); PushStack has no hidden state besides its elements.",
          "explicit-state BFS to fixpoint over the real container against a reference model"),
